@@ -19,11 +19,12 @@ type envModel struct {
 	nextDoc    int
 	open       map[*value]*openFile
 	decoded    int
+	decoders   map[*value]value // *yaml.Decoder / *json.Decoder cell -> the reader it was built on
 }
 
 func newEnvModel(i *interpreter) *envModel {
 	return &envModel{i: i, files: map[string]*fsFile{}, readFaults: map[string][]int{}, writePlans: map[string][]writePlan{},
-		reads: map[string]int{}, writes: map[string]int{}, tokenOf: map[*value]tokenRef{}}
+		reads: map[string]int{}, writes: map[string]int{}, tokenOf: map[*value]tokenRef{}, decoders: map[*value]value{}}
 }
 
 // patchGlobals sets globals of zero-initialised packages that code reads.
